@@ -2,6 +2,7 @@ package c08
 
 import (
 	"fmt"
+	"math"
 	"sort"
 	"strings"
 
@@ -16,6 +17,7 @@ import (
 	v1 "k8s.io/api/core/v1"
 	"github.com/NVIDIA/KAI-scheduler/pkg/scheduler/plugins/proportion/capacity_policy"
 
+	"kaiverif/internal/core"
 	u "kaiverif/internal/util"
 )
 
@@ -78,7 +80,7 @@ func runDirect(c directCase) (term, label string, obs stepObs, classes []string)
 	for i, q := range c.Queues {
 		qts[i] = queueTerm(q, qid)
 	}
-	term = fmt.Sprintf("{| k_queues := %s; k_init := []; k_init_obs := None; k_steps := [%s] |}",
+	term = fmt.Sprintf("{| k_queues := %s; k_min_mem := 100; k_init := []; k_init_obs := None; k_init_fair := None; k_steps := [%s] |}",
 		u.List(qts), u.Pair(step, "None"))
 	var ql []string
 	for _, q := range c.Queues {
@@ -191,8 +193,22 @@ func (c *bindCache) TaskPipelined(*pod_info.PodInfo, string) {}
 
 type seqCase struct {
 	Queues []qspec   `json:"queues"`
-	Init   []jspec   `json:"running"` // snapshot: jobs whose tasks are Running
+	Init   []jspec   `json:"snapshot"` // the jobs of the snapshot that no step decides on; every task has its State
 	Steps  []seqStep `json:"steps"`
+	// multi-cycle histories: this session is cycle number Cycle (0: a history of one cycle); its snapshot was derived
+	// from the pods as the session of the previous cycle left them, the pods admitted there being seen as Binds
+	// ("binding": bind requests still in flight; "bound"; "running": the binder finished; "mixed"); History is the
+	// replayable description of the earlier cycles.
+	Cycle   int    `json:"cycle,omitempty"`
+	Binds   string `json:"admittedPodsSeenAs,omitempty"`
+	History string `json:"history,omitempty"`
+}
+
+// endPod: a pod as a session left it (status in the job's pod map, node).
+type endPod struct {
+	Status pod_status.PodStatus
+	Node   string
+	Init   bool // it was a pod of that session's snapshot (not decided on by a step)
 }
 
 // obsQueues observes, after a step, the plugin's counters (through
@@ -225,8 +241,9 @@ func obsQueues(ssn *framework.Session, c seqCase, qid, tid *ids) string {
 
 func le3(a, b [3]float64) bool { return a[0] <= b[0] && a[1] <= b[1] && a[2] <= b[2] }
 
-func runSeq(c seqCase) (term, label string, trace []stepObs, counts map[string]int) {
+func runSeq(c seqCase) (term, label string, trace []stepObs, counts map[string]int, end map[string]endPod) {
 	counts = map[string]int{}
+	end = map[string]endPod{}
 	w := newWorld()
 	qid := newIds()
 	for _, q := range c.Queues {
@@ -242,19 +259,18 @@ func runSeq(c seqCase) (term, label string, trace []stepObs, counts map[string]i
 		admitted  bool
 		committed bool
 	}
-	build := func(j jspec, running bool) *jrec {
+	build := func(j jspec, init bool) *jrec {
 		rec := &jrec{spec: j}
 		for _, t := range j.Tasks {
-			ti := w.task(j.Name, t)
+			var ti *pod_info.PodInfo
 			tid.of(t.Name)
-			if running {
-				n := w.node(t.NodeMem)
-				ti.Status = pod_status.Running
-				ti.NodeName = n.Name
-				if err := n.AddTask(ti); err != nil {
-					panic(err)
-				}
+			if init {
+				ti = w.snapTask(j.Name, t)
+				counts["snapshot-pod:"+t.State]++
+				counts[fmt.Sprintf("snapshot-pod:%s:preemptible=%v", t.State, j.Preemptible)]++
+				counts[fmt.Sprintf("snapshot-pod:%s:queue-depth=%d", t.State, depthOf(c.Queues, j.Queue))]++
 			} else {
+				ti = w.task(j.Name, t)
 				w.node(t.NodeMem)
 			}
 			rec.tasks = append(rec.tasks, ti)
@@ -289,13 +305,43 @@ func runSeq(c seqCase) (term, label string, trace []stepObs, counts map[string]i
 	var initTerms []string
 	for _, rec := range inits {
 		for i, ti := range rec.tasks {
-			ch := chargeOf(ti)
+			ch := chargeOf(ti) // QuantifyResourceRequirements(AcceptedResource) as the snapshot left it
 			charged[rec.spec.Tasks[i].Name] = rec
-			initTerms = append(initTerms, u.Tuple(u.Pos(qid.of(rec.spec.Queue)), u.Bool(rec.spec.Preemptible),
+			initTerms = append(initTerms, fmt.Sprintf("{| ip_queue := %s; ip_preempt := %s; ip_status := %s; ip_on_node := %s; ip_task := %s |}",
+				u.Pos(qid.of(rec.spec.Queue)), u.Bool(rec.spec.Preemptible), core.StatusTerm(ti.Status), u.Bool(ti.NodeName != ""),
 				otaskTerm(tid.of(rec.spec.Tasks[i].Name), ti, rec.spec.Tasks[i].NodeMem, "None", &ch)))
 		}
 	}
 	initObs := obsQueues(ssn, c, qid, tid)
+	// Request is exported only through the fair share derived from it at session open: observed for the root queues
+	// (on the harness's huge nodes a root queue's fair share is its requestable share), unless a pending gpu-memory
+	// pod contributes devices * mem/MinNodeGPUMemory that float64 does not represent exactly
+	fairObs := "None"
+	{
+		exact := true
+		for _, job := range ssn.ClusterInfo.PodGroupInfos {
+			for _, p := range job.GetAllPodsMap() {
+				if p.Status == pod_status.Pending && p.IsMemoryRequest() && (p.ResReq.GpuMemory()*4)%ssn.ClusterInfo.MinNodeGPUMemory != 0 {
+					exact = false
+				}
+			}
+		}
+		if exact {
+			var fs []string
+			for _, q := range c.Queues {
+				if q.Parent != "" {
+					continue
+				}
+				rr := ssn.QueueFairShare(ssn.ClusterInfo.Queues[common_info.QueueID(q.Name)])
+				fs = append(fs, fmt.Sprintf("{| oq_id := %s; oq_alloc := %s |}", u.Pos(qid.of(q.Name)),
+					rqTerm([3]float64{rr.Cpu(), rr.Memory(), rr.GPUs()})))
+			}
+			fairObs = u.Opt(true, u.List(fs))
+			counts["fair-share-observed"]++
+		} else {
+			counts["fair-share-skipped:inexact-pending-gpu-memory"]++
+		}
+	}
 
 	var stepTerms []string
 	var uncovered []string
@@ -472,27 +518,55 @@ done:
 	for i, q := range c.Queues {
 		qts[i] = queueTerm(q, qid)
 	}
-	term = fmt.Sprintf("{| k_queues := %s; k_init := %s; k_init_obs := %s; k_steps := %s |}",
-		u.List(qts), u.List(initTerms), initObs, u.List(stepTerms))
+	term = fmt.Sprintf("{| k_queues := %s; k_min_mem := %s; k_init := %s; k_init_obs := %s; k_init_fair := %s; k_steps := %s |}",
+		u.List(qts), u.Pos(int(ssn.ClusterInfo.MinNodeGPUMemory)), u.List(initTerms), initObs, fairObs, u.List(stepTerms))
+	// the pods as this session leaves them (what the next snapshot is derived from)
+	initNames := map[string]bool{}
+	for _, j := range c.Init {
+		for _, t := range j.Tasks {
+			initNames[t.Name] = true
+		}
+	}
+	for _, job := range ssn.ClusterInfo.PodGroupInfos {
+		for _, p := range job.GetAllPodsMap() {
+			end[p.Name] = endPod{Status: p.Status, Node: p.NodeName, Init: initNames[p.Name]}
+		}
+	}
 
 	var ql []string
 	for _, q := range c.Queues {
 		ql = append(ql, fmt.Sprintf("%s<%s lim=%v des=%v", q.Name, q.Parent, q.Lim, q.Des))
-	}
-	var sl []string
-	for _, j := range c.Init {
-		sl = append(sl, "running "+j.label())
-	}
-	for _, s := range c.Steps {
-		sl = append(sl, s.label())
 	}
 	tag := "uncovered-admitted=none"
 	if len(uncovered) > 0 {
 		sort.Strings(uncovered)
 		tag = "uncovered-admitted=" + strings.Join(uncovered, ",")
 	}
-	label = "seq " + tag + " queues={" + strings.Join(ql, "; ") + "} steps={" + strings.Join(sl, "; ") + "}"
+	label = "seq " + tag + " queues={" + strings.Join(ql, "; ") + "} " + c.history()
 	return
+}
+
+// history describes the cycles up to and including this one: snapshot pods with their states, then the steps.
+func (c seqCase) history() string {
+	var sn, sl []string
+	for _, j := range c.Init {
+		sn = append(sn, j.label())
+	}
+	for _, s := range c.Steps {
+		sl = append(sl, s.label())
+	}
+	if c.Cycle == 0 {
+		return "snapshot={" + strings.Join(sn, "; ") + "} steps={" + strings.Join(sl, "; ") + "}"
+	}
+	h := fmt.Sprintf("cycle%d: ", c.Cycle)
+	if c.Cycle > 1 {
+		h += "pods admitted in cycle" + fmt.Sprint(c.Cycle-1) + " seen as " + c.Binds + " "
+	}
+	h += "snapshot={" + strings.Join(sn, "; ") + "} steps={" + strings.Join(sl, "; ") + "}"
+	if c.History != "" {
+		h += " AFTER " + c.History
+	}
+	return h
 }
 
 // allocate runs Statement.Allocate (node.AddTask sets AcceptedResource, then the
@@ -509,77 +583,286 @@ func allocate(stmt *framework.Statement, t *pod_info.PodInfo, node string) (pani
 	return false
 }
 
-func genSeq(r *u.Rng, allowUncovered bool, malformed bool) seqCase {
-	c := seqCase{Queues: genTree(r)}
-	pickQueue := func() string {
-		// prefer deep queues so that walks cross several levels
-		best := c.Queues[r.Intn(len(c.Queues))].Name
-		for k := 0; k < 2; k++ {
-			cand := c.Queues[r.Intn(len(c.Queues))].Name
-			if depthOf(c.Queues, cand) > depthOf(c.Queues, best) {
-				best = cand
+// seqGen carries what the step generator of a sequence needs across the cycles of a history.
+type seqGen struct {
+	r              *u.Rng
+	c              *seqCase
+	allowUncovered bool
+	commits        bool // admitted jobs are committed through Statement.Commit (some with a failing Cache.Bind)
+	always         bool // ... nearly always (histories of several cycles: the admitted pods must end up Binding)
+	jn             int
+	prefix         string
+	live           []string
+}
+
+func (g *seqGen) pickQueue() string {
+	// prefer deep queues so that walks cross several levels
+	qs, r := g.c.Queues, g.r
+	best := qs[r.Intn(len(qs))].Name
+	for k := 0; k < 2; k++ {
+		cand := qs[r.Intn(len(qs))].Name
+		if depthOf(qs, cand) > depthOf(qs, best) {
+			best = cand
+		}
+	}
+	return best
+}
+
+func (g *seqGen) newJob() jspec {
+	r := g.r
+	g.jn++
+	min := 1
+	if g.commits && r.Chance(1, 2) {
+		min = r.Range(2, 3)
+	}
+	class := r.Intn(2)
+	if g.allowUncovered && r.Chance(1, 2) {
+		class = 2
+	}
+	return genJobMin(r, fmt.Sprintf("%sj%d", g.prefix, g.jn), g.pickQueue(), class, min)
+}
+
+// snapshot deals one pod in EVERY state of snapStates (in random order) plus a few more in the resource-holding
+// states over jobs of 1-3 pods; queue (deep ones preferred), preemptibility and requests are drawn per job.
+func (g *seqGen) snapshot() {
+	r := g.r
+	states := append([]string{}, snapStates...)
+	for i, n := 0, r.Intn(4); i < n; i++ {
+		states = append(states, u.Pick(r, []string{"binding", "binding", "bound", "running", "running", "allocated", "pending", "releasing"}))
+	}
+	for i := len(states) - 1; i > 0; i-- {
+		k := r.Intn(i + 1)
+		states[i], states[k] = states[k], states[i]
+	}
+	for len(states) > 0 {
+		g.jn++
+		n := u.Pick(r, []int{1, 2, 2, 3})
+		if n > len(states) {
+			n = len(states)
+		}
+		j := jspec{Name: fmt.Sprintf("%ss%d", g.prefix, g.jn), Queue: g.pickQueue(), Preemptible: r.Bool()}
+		for i := 0; i < n; i++ {
+			t := genTask(r, fmt.Sprintf("%s-t%d", j.Name, i), false)
+			t.State = states[i]
+			j.Tasks = append(j.Tasks, t)
+			g.live = append(g.live, t.Name)
+		}
+		states = states[n:]
+		g.c.Init = append(g.c.Init, j)
+	}
+}
+
+// estCharge: roughly what a pod of this shape is charged with (only used to place the caps).
+func estCharge(t tspec) [3]float64 {
+	c := [3]float64{float64(t.CPUm), float64(t.MemMB) * 1e6, 0}
+	dev := float64(t.N)
+	if dev == 0 {
+		dev = 1
+	}
+	switch t.Kind {
+	case kWhole, kDRA:
+		c[2] = float64(t.N)
+	case kFraction:
+		f := 0.0
+		fmt.Sscanf(t.Portion, "%g", &f)
+		c[2] = f * dev
+	case kGpuMem:
+		c[2] = math.Ceil(float64(t.GpuMem)/float64(t.NodeMem)*4) / 4 * dev
+	case kMig:
+		for _, m := range t.Mig {
+			c[2] += float64(m[0] * m[1])
+		}
+	}
+	return c
+}
+
+// headroom moves three quarters of the finite caps up by (about) what the snapshot's pods already hold below them,
+// so that the room left for this cycle's decisions is distributed as the caps were drawn: part of the queues start
+// below, at, or (the remaining quarter, and lowered caps) above their cap.
+func (g *seqGen) headroom() {
+	r, c := g.r, g.c
+	for i := range c.Queues {
+		var held, heldNP [3]float64
+		for _, j := range c.Init {
+			in := false
+			for name, d := j.Queue, 0; name != "" && d < 10; d++ {
+				if name == c.Queues[i].Name {
+					in = true
+				}
+				next := ""
+				for _, q := range c.Queues {
+					if q.Name == name {
+						next = q.Parent
+					}
+				}
+				name = next
+			}
+			if !in {
+				continue
+			}
+			for _, t := range j.Tasks {
+				if pod_status.AllocatedStatus(stateStatus[t.State]) {
+					e := estCharge(t)
+					for k := range e {
+						held[k] += e[k]
+						if !j.Preemptible {
+							heldNP[k] += e[k]
+						}
+					}
+				}
 			}
 		}
-		return best
-	}
-	class := func() int {
-		if allowUncovered && r.Chance(1, 2) {
-			return 2
-		}
-		return r.Intn(2)
-	}
-	// two thirds of the sequences commit some of their admitted jobs through Statement.Commit, most of
-	// them with a Cache.Bind that fails for the first, a middle or the last task of the job; their
-	// jobs more often have 2-3 tasks, so that tasks are left on both sides of the failing one
-	commits := r.Chance(2, 3)
-	jn := 0
-	newJob := func() jspec {
-		jn++
-		min := 1
-		if commits && r.Chance(1, 2) {
-			min = r.Range(2, 3)
-		}
-		return genJobMin(r, fmt.Sprintf("j%d", jn), pickQueue(), class(), min)
-	}
-	var live []string
-	for i, n := 0, r.Intn(3); i < n; i++ {
-		j := newJob()
-		c.Init = append(c.Init, j)
-		for _, t := range j.Tasks {
-			live = append(live, t.Name)
+		for k := 0; k < 3; k++ {
+			if c.Queues[i].Lim[k] >= 0 && r.Chance(3, 4) {
+				c.Queues[i].Lim[k] += held[k]
+			}
+			if c.Queues[i].Des[k] >= 0 && r.Chance(3, 4) {
+				c.Queues[i].Des[k] += heldNP[k]
+			}
 		}
 	}
-	steps := r.Range(4, 9)
-	for i := 0; i < steps; i++ {
+}
+
+func (g *seqGen) steps(n int) {
+	r, c := g.r, g.c
+	for i := 0; i < n; i++ {
 		switch k := r.Intn(10); {
 		case k < 6:
-			j := newJob()
+			j := g.newJob()
 			c.Steps = append(c.Steps, seqStep{Op: "admit", Job: &j})
 			for _, t := range j.Tasks { // released only if it turns out to be charged
-				live = append(live, t.Name)
+				g.live = append(g.live, t.Name)
 			}
-			if commits && r.Chance(2, 3) {
+			if g.commits && (r.Chance(2, 3) || (g.always && r.Chance(3, 4))) {
 				fail := 0
-				if !r.Chance(1, 4) {
+				if !r.Chance(1, 4) && !(g.always && r.Chance(1, 2)) {
 					fail = []int{1, len(j.Tasks)/2 + 1, len(j.Tasks)}[r.Intn(3)]
 				}
 				c.Steps = append(c.Steps, seqStep{Op: "commit", Of: j.Name, Fail: fail})
 			}
-		case k < 8 && len(live) > 0:
-			ix := r.Intn(len(live))
-			c.Steps = append(c.Steps, seqStep{Op: "release", Task: live[ix]})
-			live = append(live[:ix], live[ix+1:]...)
+		case k < 8 && len(g.live) > 0:
+			ix := r.Intn(len(g.live))
+			c.Steps = append(c.Steps, seqStep{Op: "release", Task: g.live[ix]})
+			g.live = append(g.live[:ix], g.live[ix+1:]...)
 		default:
-			j := newJob()
+			j := g.newJob()
 			c.Steps = append(c.Steps, seqStep{Op: "probe", Job: &j})
 		}
 	}
+}
+
+// genSeq: one cycle. The snapshot holds a pod in every state; then 4-9 probe/admit/release decisions. Two thirds
+// of the sequences commit some of their admitted jobs through Statement.Commit, most of them with a Cache.Bind that
+// fails for the first, a middle or the last task of the job; their jobs more often have 2-3 tasks, so that tasks are
+// left on both sides of the failing one.
+func genSeq(r *u.Rng, allowUncovered bool, malformed bool, history bool) seqCase {
+	c := seqCase{Queues: genTree(r)}
+	g := &seqGen{r: r, c: &c, allowUncovered: allowUncovered, commits: history || r.Chance(2, 3), always: history}
+	if history {
+		c.Cycle = 1
+		g.prefix = "c1"
+	}
+	g.snapshot()
+	g.headroom()
+	g.steps(r.Range(4, 9))
 	if malformed { // last decision concerns a job whose queue is not in the snapshot
-		j := newJob()
+		j := g.newJob()
 		j.Queue = "ghost"
 		c.Steps = append(c.Steps, seqStep{Op: "admit", Job: &j})
 	}
 	return c
+}
+
+// nextCycle derives the next cycle of a history from the pods as the session of cycle c left them (end): the
+// cluster moved on as far as mode says for the pods whose bind request was sent (status Binding at the end of the
+// session): "binding": all bind requests still in flight; "bound": the binder set nodeName, the kubelet has not
+// started the pod; "running": the control; "mixed": per pod one of the three. Pods that were allocated but never
+// committed (statement dropped, or their operation came after a failed bind) and pods whose bind failed are pending
+// again; evicted pods are terminating or gone. Jobs that are entirely pending again and were refused (or lost their
+// bind) are tried again first, then `extra` further decisions on new jobs follow.
+func nextCycle(r *u.Rng, c seqCase, end map[string]endPod, mode string, extra int) seqCase {
+	n := seqCase{Queues: c.Queues, Cycle: c.Cycle + 1, Binds: mode, History: c.history()}
+	g := &seqGen{r: r, c: &n, commits: true, always: true, prefix: fmt.Sprintf("c%d", c.Cycle+1)}
+	next := func(e endPod) string {
+		switch e.Status {
+		case pod_status.Pending:
+			return "pending"
+		case pod_status.Gated:
+			return "gated"
+		case pod_status.Binding:
+			if mode == "mixed" {
+				return u.Pick(r, []string{"binding", "binding", "bound", "running"})
+			}
+			return mode
+		case pod_status.Allocated, pod_status.Pipelined:
+			if e.Init {
+				return u.Pick(r, []string{"allocated", "running"})
+			}
+			return "pending"
+		case pod_status.Bound:
+			return u.Pick(r, []string{"bound", "running"})
+		case pod_status.Running:
+			return u.Pick(r, []string{"running", "running", "running", "succeeded", "failed"})
+		case pod_status.Releasing:
+			if e.Node == "" {
+				return u.Pick(r, []string{"releasing-unbound", ""})
+			}
+			return u.Pick(r, []string{"releasing", ""})
+		case pod_status.Succeeded:
+			return u.Pick(r, []string{"succeeded", ""})
+		case pod_status.Failed:
+			return u.Pick(r, []string{"failed", ""})
+		}
+		return "unknown"
+	}
+	var jobs []jspec
+	stepJob := map[string]bool{}
+	for _, s := range c.Steps { // the jobs the previous cycle decided on come first (in the label, too)
+		if s.Job != nil && s.Job.Queue != "ghost" {
+			jobs = append(jobs, *s.Job)
+			stepJob[s.Job.Name] = s.Op == "admit"
+		}
+	}
+	jobs = append(jobs, c.Init...)
+	retried := 0
+	for _, j := range jobs {
+		var ts []tspec
+		pending := true
+		for _, t := range j.Tasks {
+			e, ok := end[t.Name]
+			if !ok {
+				continue
+			}
+			t.State = next(e)
+			if t.State == "" { // deleted in the meantime
+				continue
+			}
+			pending = pending && t.State == "pending"
+			ts = append(ts, t)
+		}
+		if len(ts) == 0 {
+			continue
+		}
+		j.Tasks = ts
+		if pending && stepJob[j.Name] && retried < 3 {
+			retried++
+			for i := range j.Tasks {
+				j.Tasks[i].State = ""
+			}
+			jj := j
+			n.Steps = append(n.Steps, seqStep{Op: "admit", Job: &jj})
+			if r.Chance(3, 4) {
+				n.Steps = append(n.Steps, seqStep{Op: "commit", Of: jj.Name})
+			}
+			continue
+		}
+		for _, t := range j.Tasks {
+			g.live = append(g.live, t.Name)
+		}
+		n.Init = append(n.Init, j)
+	}
+	g.steps(extra)
+	return n
 }
 
 // ---- fixed boundary corpus -------------------------------------------------------
@@ -616,7 +899,7 @@ func seqCorpus() []seqCase {
 		adm(one("c", tspec{Kind: kFraction, Portion: "0.25"}, true)), adm(one("d", tspec{Kind: kWhole, N: 1}, true))}})
 	// snapshot already above a (lowered) limit: releases allowed, raises refused
 	out = append(out, seqCase{Queues: leafChain([3]float64{1, -1, -1}, [3]float64{-1, -1, -1}),
-		Init: []jspec{one("r", tspec{Kind: kWhole, N: 2}, true)}, Steps: []seqStep{
+		Init: []jspec{one("r", tspec{Kind: kWhole, N: 2, State: "running"}, true)}, Steps: []seqStep{
 			adm(one("a", tspec{Kind: kFraction, Portion: "0.25"}, true)), {Op: "release", Task: "r-t0"},
 			adm(one("b", tspec{Kind: kFraction, Portion: "0.25"}, true))}})
 	// single-device gpu-memory request: only the node-level gate sees it
@@ -652,7 +935,63 @@ func seqCorpus() []seqCase {
 		adm(multi("a", true, tspec{Kind: kFraction, Portion: "0.5"}, tspec{Kind: kFraction, Portion: "0.5"})),
 		{Op: "commit", Of: "a"}, adm(one("b", tspec{Kind: kFraction, Portion: "0.25"}, true)),
 		{Op: "release", Task: "a-t0"}, adm(one("c", tspec{Kind: kFraction, Portion: "0.5"}, true))}})
+	for i := range out {
+		out[i] = withSweep(out[i])
+	}
 	return out
+}
+
+// withSweep adds to a corpus case a root queue "aux" without limits or quotas holding one pod in every snapshot
+// state (alternately non-preemptible / preemptible jobs of one 1-GPU pod), so that the corpus snapshots, too, contain
+// every status without disturbing the amounts the scenario is about.
+func withSweep(c seqCase) seqCase {
+	c.Queues = append(append([]qspec{}, c.Queues...), qspec{Name: "aux", Parent: "", Lim: [3]float64{-1, -1, -1}, Des: [3]float64{-1, -1, -1}})
+	for i, st := range snapStates {
+		name := fmt.Sprintf("x%d", i)
+		c.Init = append(c.Init, jspec{Name: name, Queue: "aux", Preemptible: i%2 == 1,
+			Tasks: []tspec{{Name: name + "-t0", Kind: kWhole, N: 1, NodeMem: 100, State: st}}})
+	}
+	return c
+}
+
+// historyCorpus: the first cycles of the fixed two-cycle histories: a job is admitted and its bind request sent,
+// which takes a queue (the leaf, an ancestor with two leaves below it, the leaf's deserved quota for non-preemptible
+// jobs) exactly to its cap; the other jobs are refused. The second cycle (nextCycle) retries them with the admitted
+// pods Binding / Bound / Running.
+func historyCorpus() []seqCase {
+	g1 := tspec{Kind: kWhole, N: 1}
+	job := func(name, queue string, pre bool, ts ...tspec) jspec {
+		j := jspec{Name: name, Queue: queue, Preemptible: pre}
+		for i, t := range ts {
+			t.Name = fmt.Sprintf("%s-t%d", name, i)
+			t.NodeMem = 100
+			j.Tasks = append(j.Tasks, t)
+		}
+		return j
+	}
+	hist := func(qs []qspec, js ...jspec) seqCase {
+		c := seqCase{Queues: qs, Cycle: 1}
+		for i := range js {
+			c.Steps = append(c.Steps, seqStep{Op: "admit", Job: &js[i]}, seqStep{Op: "commit", Of: js[i].Name})
+		}
+		return withSweep(c)
+	}
+	twoLeaves := append(leafChain([3]float64{-1, 1, -1}, [3]float64{-1, -1, -1}),
+		qspec{Name: "leaf2", Parent: "mid", Lim: [3]float64{-1, -1, -1}, Des: [3]float64{-1, -1, -1}})
+	return []seqCase{
+		// leaf limit 1 GPU, two preemptible 1-GPU jobs
+		hist(leafChain([3]float64{-1, -1, 1}, [3]float64{-1, -1, -1}), job("a", "leaf", true, g1), job("b", "leaf", true, g1)),
+		// limit 1 GPU on the ancestor only, jobs in two sibling leaves
+		hist(twoLeaves, job("a", "leaf", true, g1), job("b", "leaf2", true, g1)),
+		// deserved quota 1 GPU at the leaf (and 2 at the top), no limit, non-preemptible jobs
+		hist(leafChain([3]float64{-1, -1, -1}, [3]float64{2, -1, 1}), job("a", "leaf", false, g1), job("b", "leaf", false, g1)),
+		// leaf limit 2 GPUs: a 2-GPU job, then three 1-GPU jobs
+		hist(leafChain([3]float64{-1, -1, 2}, [3]float64{-1, -1, -1}), job("a", "leaf", true, tspec{Kind: kWhole, N: 2}),
+			job("b", "leaf", true, g1), job("c", "leaf", true, g1), job("d", "leaf", true, g1)),
+		// fractions on two devices, limit 1 at the top: 2 x 0.5 fills it; a quarter is refused
+		hist(leafChain([3]float64{1, -1, -1}, [3]float64{-1, -1, -1}), job("a", "leaf", false, tspec{Kind: kFraction, Portion: "0.5", N: 2}),
+			job("b", "leaf", true, tspec{Kind: kFraction, Portion: "0.25"})),
+	}
 }
 
 // witnessCase is the refutation witness of C08_limit / C08_nonpreemptible_quota
@@ -687,7 +1026,7 @@ func Run(dir string, seed uint64, n int, tier string) error {
 	}
 	if tier == "witness" {
 		for _, c := range []seqCase{mixedWitnessCase(), witnessCase()} {
-			term, label, trace, counts := runSeq(c)
+			term, label, trace, counts, _ := runSeq(c)
 			fmt.Println(label)
 			fmt.Printf("trace: %+v\ncounts: %v\n%s\n", trace, counts, term)
 		}
@@ -695,8 +1034,20 @@ func Run(dir string, seed uint64, n int, tier string) error {
 	}
 	out := u.NewOut(dir, "C08", "KaiV.Run.C08", "case", 50)
 	root := u.NewRng(seed)
-	emitSeq := func(c seqCase, origin string) {
-		term, label, trace, counts := runSeq(c)
+	type seqResult struct {
+		c      seqCase
+		term   string
+		label  string
+		trace  []stepObs
+		counts map[string]int
+		end    map[string]endPod
+	}
+	runOne := func(c seqCase) seqResult {
+		term, label, trace, counts, end := runSeq(c)
+		return seqResult{c, term, label, trace, counts, end}
+	}
+	add := func(res seqResult, origin string) {
+		c, term, label, trace, counts := res.c, res.term, res.label, res.trace, res.counts
 		out.Add(term, origin+" "+label)
 		out.Count("origin:" + origin)
 		for k, v := range counts {
@@ -723,7 +1074,46 @@ func Run(dir string, seed uint64, n int, tier string) error {
 		if counts["admitted-after-bind-failure"] > 0 {
 			out.Count("sequences-admitting-after-bind-failure")
 		}
-		out.Sample(map[string]any{"input": c, "observed": trace})
+		if c.Cycle > 1 {
+			out.Count("later-cycle-sessions")
+			out.Count("later-cycle-sessions:admitted-pods-seen-as-" + c.Binds)
+			if counts["snapshot-pod:binding"] > 0 {
+				out.Count("later-cycle-sessions-with-bind-request-in-flight")
+				if counts["admit:AdmNo"] > 0 {
+					out.Count("later-cycle-sessions-with-bind-request-in-flight-and-a-refusal")
+				}
+				if counts["admit:AdmYes"] > 0 {
+					out.Count("later-cycle-sessions-with-bind-request-in-flight-and-an-admission")
+				}
+			}
+		}
+		if out.Len()%5 == 0 || c.Cycle > 1 && out.Len()%2 == 0 {
+			out.Sample(map[string]any{"input": c, "observed": trace})
+		}
+	}
+	emitSeq := func(c seqCase, origin string) map[string]endPod {
+		res := runOne(c)
+		add(res, origin)
+		return res.end
+	}
+	// a history: cycle 1, then cycle 2 derived from the pods as cycle 1 left them, sometimes a cycle 3. laterFirst
+	// (fixed histories): the case of the second session, whose label is the whole history, is emitted before the
+	// case of the first.
+	emitHistory := func(r *u.Rng, c seqCase, origin, mode string, extra int, laterFirst bool) {
+		out.Count("histories")
+		res1 := runOne(c)
+		res2 := runOne(nextCycle(r, c, res1.end, mode, extra))
+		if laterFirst {
+			add(res2, origin)
+			add(res1, origin)
+		} else {
+			add(res1, origin)
+			add(res2, origin)
+		}
+		if extra > 0 && r.Chance(1, 4) {
+			out.Count("histories-of-3-cycles")
+			emitSeq(nextCycle(r, res2.c, res2.end, u.Pick(r, []string{"binding", "mixed", "running"}), r.Range(1, 3)), origin)
+		}
 	}
 	emitDirect := func(c directCase, origin string) {
 		term, label, obs, classes := runDirect(c)
@@ -743,24 +1133,38 @@ func Run(dir string, seed uint64, n int, tier string) error {
 			out.Sample(map[string]any{"input": c, "observed": obs})
 		}
 	}
+	for i, c := range historyCorpus() {
+		for k, mode := range []string{"binding", "bound", "running"} {
+			emitHistory(u.NewRng(7).Fork(uint64(10*i+k)), c, "history-corpus", mode, 0, true)
+		}
+	}
 	for _, c := range seqCorpus() {
 		emitSeq(c, "corpus")
 	}
 	for i := 0; i < n; i++ {
 		r := root.Fork(uint64(i))
 		switch i % 10 {
-		case 0, 1, 2, 3:
+		case 0, 1, 2:
 			emitDirect(genDirect(r, false), "direct")
-		case 4:
-			emitDirect(genDirect(r, true), "direct-malformed")
-		case 5, 6, 7:
-			emitSeq(genSeq(r, false, false), "seq")
-		case 8:
-			emitSeq(genSeq(r, true, false), "seq-any")
+		case 3:
+			if i%20 == 3 {
+				emitDirect(genDirect(r, true), "direct-malformed")
+			} else {
+				emitDirect(genDirect(r, false), "direct")
+			}
+		case 4, 5, 6:
+			emitSeq(genSeq(r, false, i%50 == 4, false), "seq")
+		case 7:
+			emitSeq(genSeq(r, true, false, false), "seq-any")
 		default:
-			emitSeq(genSeq(r, false, i%50 == 9), "seq")
+			emitHistory(r, genSeq(r, i%20 == 9, false, true), "history",
+				u.Pick(r, []string{"binding", "binding", "mixed", "mixed", "bound", "running"}), r.Range(2, 5), false)
 		}
 	}
-	out.Stats["rule"] = "queue forests of depth 1-3 (<= 7 queues; limits and deserved quotas from {-1, 0, k/4 GPUs, k*500 mCPU, k*500 MB}); jobs of 1-3 tasks (whole, fractional x devices, gpu-memory x devices, MIG, DRA, CPU-only; dyadic quantities so that float64 arithmetic is exact); 50% direct cases (capacity_policy.New on hand-set Allocated/AllocatedNotPreemptible near the caps, 1/5 of them malformed: unknown job queue, dangling parent, caps below -1, queue named \"\"), 50% sequences of 4-9 probe/admit/release decisions through a real session (proportion plugin's gates and handlers, one Statement per job: Allocate/Rollback, Evict) after a fixed boundary corpus; in 2/3 of the sequences (jobs then more often have 2-3 tasks) an admitted job is, with probability 2/3, committed right away through the real Statement.Commit against a cache whose Bind fails for one chosen task (first / middle / last task of the job, 3/4 of the commits) or for none (1/4), and the sequence goes on with further probe/admit/release steps on the same session (about 30% of all sequences contain a commit, 25% a bind failure, 13% admit another job after a bind failure; see the commit-bind-failure:* and sequences-* counts); after every step the plugin's per-queue Allocated and, independently, the set of pods whose status holds resources (Allocated/Pipelined/Binding/Bound/Running in the job's pod map) are observed; non-trivial = a direct case with at least one refusing gate, or a sequence with both an admitted and a refused job; distinct by full input"
+	out.Stats["rule"] = "queue forests of depth 1-3 (<= 7 queues; limits and deserved quotas from {-1, 0, k/4 GPUs, k*500 mCPU, k*500 MB}); jobs of 1-3 tasks (whole, fractional x devices, gpu-memory x devices, MIG, DRA, CPU-only; dyadic quantities so that float64 arithmetic is exact). " +
+		"n = the tier's count: 40% direct cases (capacity_policy.New on hand-set Allocated/AllocatedNotPreemptible near the caps, 1/8 of them malformed: unknown job queue, dangling parent, caps below -1, queue named \"\"); 40% single-cycle sequences; 20% HISTORIES of 2 cycles (1/4 of them 3 cycles), each cycle its own session and its own case, so a run of n has about n*(1+0.2*1.25) cases (quick: 3000 -> ~3790 cases, ~615 histories, ~770 later-cycle sessions, about half of which open with a bind request in flight and nearly all of those contain a refusal, 60% an admission; see histories, later-cycle-sessions* counts), after a fixed corpus of 15 two-cycle histories (5 scenarios that take a leaf limit / an ancestor's limit over two sibling leaves / a deserved quota / a 2-GPU limit / a limit via 2-device fractions exactly to the cap in cycle 1 and retry the refused jobs in cycle 2, x the admitted pods seen as Binding, Bound, Running) and 9 boundary sequences. " +
+		"SNAPSHOT of every session (all sequences, every cycle of every history, the corpus): at least one pod in EACH of the 11 situations a queue's pod can be in when the snapshot is taken -- pending, gated, allocated (set by hand: getTaskStatus never returns it), binding (pending pod + BindRequest in flight), bound (nodeName, phase Pending), running, releasing on a node, releasing without node, succeeded, failed, unknown -- built by v1.Pod + BindRequest -> pod_info.NewTaskInfoWithBindRequest -> NodeInfo.AddTasksToNode; generated sessions: the 11 states in random order plus 0-3 more (binding/bound/running/allocated/pending/releasing) dealt over jobs of 1-3 pods, queue (deep ones preferred: depth 1/2/3 about 35/25/40%), preemptibility (50/50) and requests drawn per job, i.e. per quick run roughly 2600 pods in each state, each state with both preemptibilities and all three depths (snapshot-pod:<state>[:preemptible=..|:queue-depth=..] counts); three quarters of the finite caps are moved up by what the snapshot holds below them so that admissions and refusals keep their share (about 30% of the admit steps are admitted); corpus sessions carry the 11 states in an extra unlimited root queue. " +
+		"LATER CYCLES: the snapshot is derived from the pods as the previous session left them: pods whose bind was sent (Binding) are seen as binding (bind request still in flight; 1/3 of the histories), bound, running (the control), or per pod one of the three (mixed, 1/3); pods allocated but never committed or whose bind failed are pending again, evicted pods terminating or gone, running pods sometimes finished; jobs that are entirely pending again after a refusal are retried first (<= 3), then 2-5 decisions on new jobs. " +
+		"STEPS: 4-9 probe/admit/release decisions through the real session (proportion plugin's gates and handlers, one Statement per job: Allocate/Rollback, Evict; releases also hit snapshot pods in every holding status); in 2/3 of the single-cycle sequences and in all histories an admitted job is committed right away through the real Statement.Commit against a cache whose Bind fails for one chosen task (first / middle / last task of the job) or for none; after session open and after every step the plugin's per-queue Allocated and, independently, the set of pods whose status holds resources (Allocated/Pipelined/Binding/Bound/Running in the job's pod map) are observed; at session open also QueueFairShare of the root queues (the exported view on Request; skipped, fair-share-skipped count, when a pending gpu-memory pod's devices*memory/100 is not exact in float64); non-trivial = a direct case with at least one refusing gate, or a sequence with both an admitted and a refused job; distinct by full input"
 	return out.Flush()
 }
